@@ -136,7 +136,7 @@ PROPS = {
         unreached=["FormattedMakeWriterEntryIoStream (tracing-subscriber MakeWriter)"],
     ),
     "C10": dict(
-        verus=[("aggregator", {}), ("agg_value", {}), ("worker", {}), ("mutexsink", {})],
+        verus=[("aggregator", {}), ("agg_value", {}), ("worker", {}), ("mutexsink", {}), ("aggsinks", {})],
         technique="Verus contracts on the real KeyedAggregator::{get_or_create_accum, merge, merge_ref, flush} over a ghost-map model of hashbrown's raw-entry API and drain, and on every per-field aggregation strategy's insert (Sum, KeepLast, MergeOptions, CopyWrapper, Flatten, Distribution)",
         level_text="Deductive proof (Verus/z3) for every storage state and every input: (keyed aggregator) a merged input lands in exactly one aggregate - the one stored under the key the input itself yields, created empty on first use - "
                    "appended to what that aggregate already held, every other aggregate and key untouched; flush emits, for every key held, that key's closed aggregate under its closed key and leaves the storage empty (any number of keys). "
@@ -145,7 +145,9 @@ PROPS = {
                    "(worker sink) the body of the worker thread (the closure handed to thread::spawn, sliced out mechanically) merges every queued entry, answers a flush request only after a flush, and - once the channel reports every handle gone - "
                    "flushes one last time and returns without ever polling the channel again. "
                    "(mutex sink) MutexSink::merge hands every entry to the inner sink's merge (it blocks on the lock and never skips an entry). "
-                   "NOT decided: the tee sink, MutexSink::close, cross-thread ordering of sends, the generated Merge / Key impls (proc macro).",
+                   "(sinks and guards) MergeOnDrop / CloseAndMergeOnDrop hand the value they hold (closed, for the latter) to the target sink when dropped and hold none afterwards; the tee hands every entry to both sinks and flushes both; "
+                   "the non-aggregating sink appends the entry, rooted; the embedded Aggregate<T> merges every input (closed by insert) into its one accumulator. "
+                   "NOT decided: MutexSink::close, cross-thread ordering of sends, the generated Merge / Key impls (proc macro).",
         level_note="Trusted: Verus + z3; hashbrown's raw-entry API (from_hash with the equality closure, into_mut, insert_hashed_nocheck) and drain as a ghost map keyed by the key's abstract text (drain yields every pair exactly once); "
                    "std::sync::Mutex as a stand-in (lock returns Ok - no poisoning - and its guard dereferences to the protected sink; try_lock may fail); the Merge / Key / CloseValue / EntrySink trait contracts; `append` is witnessed by a predicate (one call per drained pair, not a multiplicity count). Type-level deviation: the stand-in `Key` trait's GAT is declared `'static` "
                    "(this Verus' lifetime pass loses the 'static argument; lifetimes have no logical content). R3b, closure contract on the equality closure.",
@@ -269,19 +271,19 @@ PROPS = {
         unreached=["MetricAccumulatorEntry's Entry::write (names, labels as dimensions, units)", "reporter task", "unit mapping"],
     ),
     "C17": dict(
-        verus=[("globalsink", {})],
-        technique="Verus contracts on the real routing functions inside the global_entry_sink! macro body (get_test_sink, try_sink, try_append, attach, set_test_sink_for_tokio_runtime), process-global state read and written through stand-in accessors",
+        verus=[("globalsink", {"tl": "contract", "refute_with": [{"tl": "bare"}]})],
+        technique="Verus contracts on the real routing functions inside the global_entry_sink! macro body (get_test_sink, try_sink, try_append, attach, set_test_sink_for_tokio_runtime, the thread-local set_test_sink), process-global state read and written through stand-in accessors",
         level_text="Deductive proof (Verus/z3), for every state of the four places a destination can be installed: an entry appended through a global sink goes to exactly one destination - the calling thread's test sink if one is installed, "
                    "otherwise the current runtime's test sink, otherwise the attached sink (the entry is moved into the one append) - and with none of these try_append hands the entry back unchanged; try_sink returns that same choice. "
-                   "Attaching while a sink is attached, and installing a runtime test sink on a runtime that has one, never return normally (the documented panic, after the lock guard is released) and never overwrite what is installed "
+                   "Attaching while a sink is attached, installing a runtime test sink on a runtime that has one, and installing a thread-local test sink on a thread that has one, never return normally (the documented panic, after the lock guard is released) and never overwrite what is installed "
                    "(the store / insert stand-ins carry `nothing is installed under this key` as a precondition); a first attach / install stores the given sink. "
-                   "NOT decided: the thread-local set_test_sink, removing test sinks and the guards / handle that restore routing on drop (flush before detach), anything across threads or runtimes.",
+                   "NOT decided: removing test sinks and the guards / handle that restore routing on drop (flush before detach), anything across threads or runtimes.",
         level_note="Trusted: Verus + z3. The functions are located inside the macro_rules! token tree and extracted verbatim; `$crate::__test_util! { .. }` is expanded to its argument (feature test-util on), and the five accessors of "
                    "process-global state (thread-local cell, tokio Handle::try_current, the per-runtime map behind a Mutex, the RwLock holding the attached sink) are rewritten (M2-M5, M8, exact text) to stand-ins that return one thread's snapshot; `panic!(..)` is rewritten to a call that never returns (M6, M9; Verus would demand unreachability), "
                    "`*write = Some((..))` to a store method carrying the no-overwrite obligation (M10), `$crate::` paths of the guard type dropped (M7).",
         explanation="global sink routing precedence",
         assumptions=["the accessors return what is installed at the moment of the call (one thread's view; no concurrent install / remove)"],
-        unreached=["AttachHandle's drop (join) and forget", "thread-local set_test_sink, guards (ThreadLocalTestSinkGuard, runtime guard) and their Drop", "without the test-util feature (the test-sink branch is compiled out)"],
+        unreached=["AttachHandle's drop (join) and forget", "guards (ThreadLocalTestSinkGuard, runtime guard) and their Drop", "without the test-util feature (the test-sink branch is compiled out)"],
     ),
     "C18": dict(
         verus=[("timers", {})],
